@@ -108,6 +108,34 @@ def state_canon(v):
     raise TypeError(type(v))
 
 
+def observe(o):
+    """what a user of the flow object sees, attribute by attribute — a reference for "the flow that was saved" that does not
+    go through get_state() (a get_state that drops a component would otherwise agree with itself after a reload)"""
+    import dataclasses, enum
+    if o is None or isinstance(o, (bool, int, float, str, bytes)): return o
+    if isinstance(o, enum.Enum): return o.value
+    if isinstance(o, (list, tuple)): return [observe(x) for x in o]
+    if isinstance(o, dict): return {k: observe(v) for k, v in o.items()}
+    if isinstance(o, certs.Cert): return {"pem": o.to_pem()}
+    if isinstance(o, ProxyMode): return {"mode": o.full_spec}
+    if isinstance(o, http.Headers): return [[k, v] for k, v in o.fields]
+    if isinstance(o, websocket.WebSocketMessage):
+        return {"type": int(o.type), "from_client": o.from_client, "content": o.content, "timestamp": o.timestamp,
+                "dropped": o.dropped, "injected": o.injected}
+    if isinstance(o, (tcp.TCPMessage, udp.UDPMessage)):
+        return {"from_client": o.from_client, "content": o.content, "timestamp": o.timestamp}
+    if isinstance(o, http.Message): return observe(o.data)
+    if isinstance(o, flow.Flow):
+        out = {a: observe(getattr(o, a)) for a in ("id", "type", "error", "client_conn", "server_conn", "intercepted", "is_replay", "marked",
+                                                    "metadata", "comment", "timestamp_created", "_backup")}
+        for a in ("request", "response", "websocket", "messages"):
+            if hasattr(o, a): out[a] = observe(getattr(o, a))
+        return out
+    if dataclasses.is_dataclass(o):
+        return {f.name: observe(getattr(o, f.name)) for f in dataclasses.fields(o) if f.metadata.get("serialize", True) is not False}
+    raise TypeError(f"observe: {type(o)}")
+
+
 def digest(b):
     return hashlib.sha256(b).hexdigest()[:16]
 
@@ -497,6 +525,7 @@ def build_flow(spec):
         f = {"http": lambda: tflow.tflow(resp=True), "ws": tflow.twebsocketflow, "tcp": tflow.ttcpflow,
              "udp": tflow.tudpflow, "dns": lambda: tflow.tdnsflow(resp=True)}[t]()
         f.id = "%032x" % r.getrandbits(128)
+        if spec.get("empty"): make_empty(f, spec["empty"])
         return f
     cc, sc = rclient(r), rserver(r)
     if t in ("http", "ws"):
@@ -528,12 +557,38 @@ def build_flow(spec):
     if r.random() < 0.2:                       # a backup state distinct from the current one
         f.backup()
         f.comment = f.comment + "*"
+    if spec.get("empty"): make_empty(f, spec["empty"])
     return f
+
+
+def make_empty(f, level):
+    """every container-valued component at size 0 (level 1), additionally every optional component present-but-empty
+    rather than absent (level 2: empty trailers, empty bodies, empty strings)"""
+    for c in (f.client_conn, f.server_conn):
+        c.certificate_list = []; c.alpn_offers = []; c.cipher_list = []
+    f.metadata = {}
+    if isinstance(f, http.HTTPFlow):
+        f.request.headers = http.Headers()
+        if f.response is not None: f.response.headers = http.Headers()
+        if f.websocket is not None: f.websocket.messages = []
+        if level >= 2:
+            f.request.trailers = http.Headers(); f.request.content = b""
+            if f.response is not None: f.response.trailers = http.Headers(); f.response.content = b""; f.response.reason = b""
+            if f.websocket is not None: f.websocket.close_reason = ""; f.websocket.close_code = 0
+    elif hasattr(f, "messages"):
+        f.messages = []
+    else:
+        for m in (f.request, f.response):
+            if m is not None: m.questions = []; m.answers = []; m.authorities = []; m.additionals = []
+    if level >= 2:
+        f.comment = ""; f.marked = ""; f.client_conn.alpn = b""; f.client_conn.sni = ""; f.client_conn.cipher = ""
+        if f.error is not None: f.error.msg = ""
 
 
 def rspecs(r, n=None, plain_p=0.1):
     n = n or r.choice([1, 1, 2, 3, 4])
-    return [{"t": r.choice(FLOW_TYPES), "seed": r.getrandbits(48), **({"plain": 1} if r.random() < plain_p else {})} for _ in range(n)]
+    return [{"t": r.choice(FLOW_TYPES), "seed": r.getrandbits(48), **({"plain": 1} if r.random() < plain_p else {}),
+             **({"empty": r.choice([1, 2])} if r.random() < 0.15 else {})} for _ in range(n)]
 
 
 def write_flows(flows, filtered=False):
@@ -923,7 +978,9 @@ class Check(PropertyCheck):
         need(self.oracle({"k": "raw"}, {"read": [0, "flowRead"]}) == [] and self.oracle({"k": "raw"}, {"read": [3, "clean"]}) == [], "allowed endings")
         need(self.oracle({"k": "raw"}, {"read": [0, "other:KeyError"]}) and self.oracle({"k": "mut"}, {"read": [1, "other:RecursionError"]}), "escaping exceptions")
         need(self.oracle({"k": "deep"}, {"res": ["err", "other:RecursionError"]}) and not self.oracle({"k": "deep"}, {"res": ["err", "RecursionError"]}), "deep nesting")
-        good = {"read": [2, "clean"], "n": 2, "equal": [True, True], "diff": None, "read2": [2, "clean"], "equal2": [True, True], "types": ["http", "tcp"]}
+        good = {"read": [2, "clean"], "n": 2, "equal": [True, True], "diff": None, "read2": [2, "clean"], "equal2": [True, True], "types": ["http", "tcp"],
+                "equal_attr": [True, True], "diff_attr": None}
+        need(self.oracle({"k": "flows"}, {**good, "equal_attr": [True, False], "diff_attr": "/websocket"}), "a component that get_state() drops on both sides")
         need(self.oracle({"k": "flows"}, good) == [], "two flows written and read back")
         need(self.oracle({"k": "flows"}, {**good, "equal": [True, False], "diff": "x"}), "a flow whose state changed")
         need(self.oracle({"k": "flows"}, {**good, "read": [1, "clean"]}), "a flow lost")
@@ -965,6 +1022,10 @@ class Check(PropertyCheck):
             yield {"k": "flows", "specs": [{"t": t, "seed": 1, "plain": 1}]}
             yield {"k": "flows", "specs": [{"t": t, "seed": 7}]}
         yield {"k": "flows", "specs": [{"t": t, "seed": 3} for t in FLOW_TYPES]}
+        for t in FLOW_TYPES:          # every container-valued component at size 0; optional components present but empty
+            for lvl in (1, 2):
+                yield {"k": "flows", "specs": [{"t": t, "seed": 5, "empty": lvl}]}
+                yield {"k": "flows", "specs": [{"t": t, "seed": 6, "plain": 1, "empty": lvl}]}
         for op in HIST_OPS:
             yield {"k": "hist", "seed": 11, "ops": [op], "victim": 0}
         # the second record's length prefix on every offset around the buffer boundary, through every kind of file object
@@ -1071,16 +1132,28 @@ class Check(PropertyCheck):
             flows = [build_flow(s) for s in case["specs"]]
             states = [f.get_state() for f in flows]
             data, bounds = write_flows(flows)
+            seen_before = [observe(f) for f in flows]                    # the flows as the user sees them, before saving
             res, back = run_reader(io.BytesIO(data), want_states=True)
             ok = [state_canon(a) == state_canon(b) for a, b in zip(states, back)]
             diff = None
             if not all(ok):
                 i = ok.index(False); diff = self.first_diff(states[i], back[i])
+            # the same comparison without get_state(): attribute by attribute on the loaded objects
+            try:
+                loaded = list(FlowReader(io.BytesIO(data)).stream())
+            except exceptions.FlowReadException:
+                loaded = []
+            seen_after = [observe(f) for f in loaded]
+            ok_attr = [state_canon(a) == state_canon(b) for a, b in zip(seen_before, seen_after)]
+            diff_attr = None
+            if not all(ok_attr):
+                i = ok_attr.index(False); diff_attr = self.first_diff(seen_before[i], seen_after[i])
             # second generation: what was loaded saves to the same states again
             data2, _ = write_flows([flow.Flow.from_state(s) for s in [f.get_state() for f in FlowReader(io.BytesIO(data)).stream()]]) if res[1] == "clean" else (b"", None)
             res2, back2 = run_reader(io.BytesIO(data2), want_states=True) if res[1] == "clean" else ([0, "skipped"], [])
             ok2 = [state_canon(a) == state_canon(b) for a, b in zip(states, back2)]
             return {"read": res, "n": len(flows), "equal": ok, "diff": diff, "read2": res2, "equal2": ok2,
+                    "equal_attr": ok_attr, "diff_attr": diff_attr,
                     "records_hex": [hx(data[a:b]) for a, b in zip(bounds, bounds[1:])],
                     "wires": [to_wire(s) for s in states], "types": [s["type"] for s in states]}
         if k == "fobj":
@@ -1205,6 +1278,10 @@ class Check(PropertyCheck):
                     fails.append(f"flow #{obs['equal'].index(False)} ({obs['types'][obs['equal'].index(False)]}) state differs after load: {obs['diff']}")
                 elif obs["read2"] != [obs["n"], "clean"] or not all(obs["equal2"]):
                     fails.append(f"second save/load generation differs: {obs['read2']}")
+                elif len(obs.get("equal_attr", [])) != obs["n"] or not all(obs["equal_attr"]):
+                    i = obs["equal_attr"].index(False) if False in obs.get("equal_attr", []) else -1
+                    fails.append(f"flow #{i} ({obs['types'][i]}) differs from the flow that was saved, seen attribute by attribute "
+                                 f"(not through get_state): {obs.get('diff_attr')}")
         elif k == "mut":
             reader_ok(obs["read"])
         elif k == "fobj":
